@@ -41,13 +41,15 @@ PROP = "C16"
 LEVEL = "exploration"
 RULE = (
     "Hypothesis-generated (pattern, target) pairs over Sum, Product, Quotient, Power, "
-    "Call, Subscript, Comparison, If (arity <= 4, depth <= 3) for "
+    "Call, Subscript, Comparison, If (+ Lookup; arity <= 4, depth <= 3) for "
     "UnidirectionalUnifier with lhs_mapping_candidates always given (as list, tuple, "
     "set or frozenset) and a subset of the pattern's variables: targets are (a) the "
     "pattern instantiated with random bindings, then sums/products commuted, "
     "flattened or regrouped, (a') instantiated inconsistently (one occurrence gets "
-    "another value), (b) the pattern under an injective renaming of its candidate "
-    "variables (completeness clause: >= 1 record), (c) independent trees. Bridge: "
+    "another value) or off by one detail (leaf, comparison operator, lookup name, one "
+    "operand more/fewer), (b) the pattern under an injective renaming of its "
+    "candidate variables (completeness clause: >= 1 record; optionally with commuted "
+    "operands, reported under a separate kind), (c) independent trees. Bridge: "
     "expressions over the same nodes (+ FloorDiv, Remainder, shifts, bitwise and "
     "logical operators for the round trip), patterns with DotWildcard leaves and "
     "StarWildcards in commutative (Sum/Product/LogicalAnd) and sequence (Call "
@@ -66,25 +68,35 @@ ASSUMPTIONS = [
     "state the intended instantiation law",
     "unifier records are read through UnificationRecord.equations (lmap/rmap are "
     "documented as internal early-rejection aids)",
-    "neutral operands (0 in sums, 1 in products) may be dropped by the unifier's "
-    "multi-operand bindings; products containing the constant 0 are not generated "
-    "(flattened_product collapses them to 0: value-preserving, not AC)",
+    "unifier interpretation of 'equal up to reordering and regrouping': additionally "
+    "up to the simplifications of flattened_sum/flattened_product with which the "
+    "unifier builds multi-operand bindings (structurally zero operands dropped from "
+    "sums, constant 1 dropped from products, a product with a structurally zero "
+    "operand is 0), a single-operand Sum/Product equals its operand, a Subscript "
+    "index equals its 1-tuple (map_subscript unpacks them), numbers compare by value",
     "the unifier has no work limit: cases whose static work bound (records from free "
     "operands, duplicate records from identical sibling operands) exceeds 20000 are "
     "skipped and counted",
     "an injective renaming maps candidate variables to distinct names that are "
-    "either candidates or fresh, so that it stays injective on all pattern variables",
-    "bridge patterns are rooted at an operator node, star wildcards occur only in "
-    "variadic positions, wildcard names are unique per kind",
+    "either candidates or fresh, so that it stays injective on all pattern variables; "
+    "the clause is demanded literally (same operand order, kind "
+    "no-record-for-injective-renaming) and, as the AC reading of the same clause, "
+    "with commuted operands (kind no-record-for-commuted-renaming, see F28)",
+    "bridge patterns are rooted at an operator node (a bare wildcard pattern makes "
+    "match_anywhere visit the encoding's Id/ComparisonOp/TupleOp nodes), star "
+    "wildcards occur only in variadic positions, wildcard names are unique per kind",
     "replace_all is run with a replacement that rebuilds the matched term with the "
     "pattern's own variables renamed (suffix __m), which makes rewriting terminate; "
     "the result with the suffix removed must be the subject modulo AC",
     "matchpy itself (matching algorithm) is trusted only as far as the instantiation "
     "law checks it; no completeness is demanded from the bridge",
 ]
-HEALTH = {"u:has-records": 0.10, "u:repeated-cand": 0.08, "u:multi-free-in-ac": 0.10,
-          "b:star-commutative": 0.03, "b:star-sequence": 0.03, "b:has-match": 0.10,
-          "b:replaced": 0.03}
+HEALTH = {"u:has-records": 0.15, "u:repeated-cand": 0.08, "u:multi-free-in-ac": 0.08,
+          "u:free-next-to-fixed": 0.03, "u:several-records": 0.015,
+          "u:origin:rename": 0.05, "u:origin:rename+commute": 0.02,
+          "u:origin:near": 0.015, "u:origin:incons": 0.02,
+          "b:star-commutative": 0.03, "b:star-sequence": 0.025, "b:has-match": 0.08,
+          "b:replaced": 0.03, "b:roundtrip-nested": 0.015}
 
 CASE_TIMEOUT_S = 5      # record explosions of the unifier are skipped, see tame()
 TIMEOUT_IS_FAIL = False
@@ -1152,9 +1164,30 @@ def perturbed(draw, target):
     or a lookup name."""
     cmps = [x for x in subspecs(target) if x[0] == "Comparison"]
     lks = [x for x in subspecs(target) if x[0] == "Lookup"]
+    acs = [x for x in subspecs(target) if x[0] in ("Sum", "Product")]
     kinds = ["leaf", "leaf"] + (["cmp", "cmp"] if cmps else []) + (
-        ["lookup", "lookup"] if lks else [])
+        ["lookup", "lookup"] if lks else []) + (["grow", "grow", "drop"] if acs else [])
     kind = draw(st.sampled_from(kinds))
+    if kind in ("grow", "drop"):
+        # one operand more / fewer in one sum or product
+        k = draw(st.integers(0, len(acs) - 1))
+        new = draw(u_value(0))
+        cnt = [0]
+
+        def g2(node):
+            if node[0] in ("Sum", "Product"):
+                i = cnt[0]
+                cnt[0] += 1
+                ch = [spec_subst(c, g2) for c in node[1]]
+                if i == k:
+                    j = draw(st.integers(0, len(ch) - (0 if kind == "grow" else 1)))
+                    if kind == "grow":
+                        ch = ch[:j] + [new] + ch[j:]
+                    elif len(ch) > 1:
+                        ch = ch[:j] + ch[j + 1:]
+                return [[node[0], ch]]
+            return None
+        return spec_subst(target, g2)
     if kind == "leaf":
         leaves = [x for x in subspecs(target) if x[0] in ("Var", "Const")]
         if not leaves:
@@ -1205,7 +1238,7 @@ def unify_case(draw):
         cands = present
     how = draw(st.sampled_from(("set", "list", "tuple", "frozenset")))
     origin = draw(st.sampled_from(("inst", "inst", "inst", "inst", "incons", "incons",
-                                   "indep", "near")))
+                                   "indep", "near", "near")))
     if origin in ("inst", "incons", "near"):
         binds = {}
         pool = []
